@@ -204,7 +204,7 @@ pub fn run(stdout: &mut StandardStream, hy_opt: &HyeongOption) -> Result<(), Err
                                 continue;
                             }
                         };
-                        if num > un_opt_code.len() {
+                        if num >= un_opt_code.len() {
                             io::print_error_str_no_exit(stdout, "number exceeds the range");
                             continue;
                         }
